@@ -12,6 +12,12 @@ belongs to c is compared with
       intervals reversed / reverse-complemented on '-', binned counts, local<->global conversion) the single-contig
       definition evaluated by models/genome_multi.py from a dense per-base model.
 
+Where a definition (2) exists, multi-chromosome cases compare the restricted result with (2), and the one-chromosome
+cases (every name x size x set x strand pattern x order is itself a case) compare the one-chromosome genome with (2);
+(1) then follows by transitivity and the one-chromosome run is only executed again when the whole-genome result
+deviates (to attribute the failure).  Where no definition exists (get_location, get_windows(window_size=)) the
+one-chromosome run is executed for every chromosome of every case.
+
 Oracle clauses (= failure kinds):
   one-chromosome-genome-raises / -differs-from-definition   the operation is wrong without any neighbour
   whole-genome-raises                                       raises on the multi-chromosome genome although every
@@ -49,7 +55,9 @@ RULE = ('a case = genome (ordered chromosome names from {chr1,chr10,chr1_alt,c},
         'chromosome has no entries)')
 ASSUMPTIONS = [
     'the single-contig reference is (a) the same bionumpy operation on a one-chromosome genome holding only that '
-    'chromosome\'s entries and (b) the dense per-base definitions of models/intervals.py (validated by C08)',
+    'chromosome\'s entries and (b) the dense per-base definitions of models/intervals.py (validated by C08); where (b) '
+    'exists the multi-chromosome result is compared with (b) and the one-chromosome genome is compared with (b) in the '
+    'one-chromosome cases (all names x sizes x sets x strand patterns), so (a) follows by transitivity',
     'merged() is only given entries in genome order, start-sorted inside each chromosome (merge_intervals documents '
     'sorted input); all other operations are also run on the reversed entry list',
     'intervals are non-empty, in bounds, half-open; clip() is given every interval grown by one base on both sides',
